@@ -73,3 +73,61 @@ func H_C03_q()    { hC03(2, 3, 2, 2) }
 func H_C03_tear() { hC03(2, 1, 2, 300) }
 func H_C03_tearhdr() { hC03(2, 1, 2, 490) }
 func H_C03_t()    { hC03(2, 3, 3, 2) }
+
+// H_C03_shortwrite: one append to a segment writes a 7-byte prefix and fails
+// (the operation reports the error). Later operations are acknowledged, then the
+// process dies: recovery must still yield every acknowledged write.
+func H_C03_shortwrite() {
+	n := 2
+	vlen := 2
+	rec := 10 + 8 + vlen
+	efs := &errFS{inner: fs.Mem, shortWrite: true, segsOnly: true}
+	dir := "c03w"
+	db, err := Open(dir, smallOpts(efs, 4, rec))
+	vAssert(err == nil, "C03w.open")
+	if err != nil {
+		return
+	}
+	r := newRef(n, 8)
+	applyOp(db, r, 0, 0, vlen, "C03w.prefix")
+	// the failing operation: its effect is all or nothing
+	efs.armed = true
+	code := vCase() % (2 * n)
+	op, k := decodeOp(code, n)
+	before := r.clone()
+	v := vBytes("val", vlen)
+	var operr error
+	if op == 0 {
+		operr = db.Put(r.keys[k], v)
+	} else {
+		operr = db.Delete(r.keys[k])
+	}
+	efs.armed = false
+	after := before.clone()
+	refApply(after, op, k, v)
+	if operr != nil {
+		vCover("C03w.operation-failed-after-a-short-write")
+		mA := stateMatches(db, before, "C03w.failed")
+		mB := stateMatches(db, after, "C03w.failed")
+		vAssert(vOr(mA, mB), "C03w.failed-operation-is-all-or-nothing")
+		r = observeState(db, after) // whichever of the two it was
+	} else {
+		r = after
+	}
+	// acknowledged operations after the failure
+	for step := 0; step < 2; step++ {
+		c2 := vChoice("op", 2*n)
+		op2, k2 := decodeOp(c2, n)
+		applyOp(db, r, op2, k2, vlen, "C03w.later")
+	}
+	checkReads(db, r, "C03w.live")
+	fs.VerifDropHandles()
+	db2, err := Open(dir, smallOpts(fs.Mem, 4, rec))
+	vAssert(err == nil, "C03w.recovering-open-succeeds")
+	if err != nil {
+		return
+	}
+	checkReads(db2, r, "C03w.recovered")
+	vSegmentsWellFormed(db2, "C03w.recovered")
+	vCover("C03w.done")
+}
